@@ -606,3 +606,19 @@ def gen_ctx(r, mode, version) -> dict:
             gstate[k] = gen_u(r) if r.random() < 0.6 else gen_bytes(r)
     return {"mode": mode, "version": version, "args": [gen_bytes(r) for _ in range(r.choice([3, 3, 4, 5, 1, 0]))], "group": group, "gi": gi,
             "global": glob, "salt": r.randrange(1000), "gstate": gstate}
+
+
+# ----------------------------------------------------------------------------- replay support
+
+
+def pack(prog: Program) -> str:
+    """serialise a recipe program for a replay file"""
+    import base64
+    import pickle
+    return base64.b64encode(pickle.dumps(prog)).decode()
+
+
+def unpack(s: str) -> Program:
+    import base64
+    import pickle
+    return pickle.loads(base64.b64decode(s))
